@@ -10,6 +10,7 @@ import (
 	"sort"
 	"strconv"
 	"strings"
+	"unsafe"
 )
 
 type vparser struct {
@@ -165,12 +166,10 @@ func (p *vparser) build(t reflect.Type, rv reflect.Value) error {
 		for p.peek() != ')' {
 			f := rv.Field(k)
 			if !f.CanSet() {
-				// unexported: skip the descriptor
-				tmp := reflect.New(t.Field(k).Type).Elem()
-				if err := p.build(t.Field(k).Type, tmp); err != nil {
-					return err
-				}
-			} else if err := p.build(t.Field(k).Type, f); err != nil {
+				// unexported (e.g. an embedded field of unexported type): build it through its address
+				f = reflect.NewAt(f.Type(), unsafe.Pointer(f.UnsafeAddr())).Elem()
+			}
+			if err := p.build(t.Field(k).Type, f); err != nil {
 				return err
 			}
 			k++
